@@ -141,6 +141,11 @@ class IoModel:
         R("File::sync_data", lambda ex, st, fr, c, a, d, r: io.call(ex, st, d, r, "sync", VUnit(), path=io.file_path(st, a[0])))
         R("File::sync_all", lambda ex, st, fr, c, a, d, r: io.call(ex, st, d, r, "sync", VUnit(), path=io.file_path(st, a[0]), all=True))
         R("File::try_lock", m_try_lock(io))
+        R("File::try_clone", lambda ex, st, fr, c, a, d, r: io.call(ex, st, d, r, "dup", deref_all(st, a[0]), path=io.file_path(st, a[0])))
+        R("File::set_len", lambda ex, st, fr, c, a, d, r: io.call(ex, st, d, r, "write", VUnit(), path=io.file_path(st, a[0]), data=["truncate"]))
+        R("fs::write", lambda ex, st, fr, c, a, d, r: io.call(ex, st, d, r, "write", VUnit(), path=path_desc(st, a[0]), data=["whole-file"], create=True))
+        R("fs::copy", lambda ex, st, fr, c, a, d, r: io.call(ex, st, d, r, "write", VInt(0, "u64"), path=path_desc(st, a[1]), data=["copy"], create=True))
+        R("fs::hard_link", lambda ex, st, fr, c, a, d, r: io.call(ex, st, d, r, "rename", VUnit(), path=path_desc(st, a[0]), dst=path_desc(st, a[1]), link=True))
         R("File as Write::write_all", lambda ex, st, fr, c, a, d, r: io.call(
             ex, st, d, r, "write", VUnit(), path=io.file_path(st, a[0]), data=[data_desc(st, a[1])]))
         # ---- BufWriter
@@ -162,6 +167,17 @@ class IoModel:
         R("NamedTempFile::reopen", lambda ex, st, fr, c, a, d, r: m_open(
             io, ex, st, d, r, ("staging", deref_all(st, a[0]).fields[0].data), dict(write=True, reopen=True)))
         R("NamedTempFile::path", lambda ex, st, fr, c, a, d, r: VRef(st.alloc(P("staging", deref_all(st, a[0]).fields[0].data))))
+        R("Builder::new", lambda ex, st, fr, c, a, d, r: VOpaque("tmpbuilder", {"rand": True}))
+        R(["Builder::prefix", "Builder::suffix", "Builder::permissions", "Builder::append", "Builder::disable_cleanup", "Builder::keep"],
+          lambda ex, st, fr, c, a, d, r: a[0])
+        R("Builder::rand_bytes", m_builder_rand)
+        R(["Builder::make_in", "Builder::tempfile_in", "Builder::make", "Builder::tempfile"], m_builder_make(io))
+        R(["K as KeyBytes::to_key_bytes", "K as KeyBytes::to_key_bytes_owned", "Self as KeyBytes::to_key_bytes"],
+          lambda ex, st, fr, c, a, d, r: VOpaque("bytes", ("key", deref_all(st, a[0]))))
+        R(["<K as KeyBytes>::Bytes as AsRef::as_ref", "<Self as KeyBytes>::Bytes as AsRef::as_ref"], lambda ex, st, fr, c, a, d, r: a[0])
+        R(["blake3::hash"], lambda ex, st, fr, c, a, d, r: VOpaque("digest", (data_desc(st, a[0]),)))
+        R(["Hash::to_hex", "ArrayString as ToString::to_string", "ArrayString::as_str", "String as Deref::deref",
+           "String::as_str", "str::as_bytes"], lambda ex, st, fr, c, a, d, r: VOpaque("str", "derived"))
         # ---- hashing
         R("blake3::Hasher::new", lambda ex, st, fr, c, a, d, r: VOpaque("hasher", ()))
         R("Hasher::new", lambda ex, st, fr, c, a, d, r: VOpaque("hasher", ()))
@@ -199,6 +215,8 @@ def data_desc(st, v):
     if isinstance(v, VOpaque):
         return (v.tag, v.data)
     if isinstance(v, VVec):
+        if v.elems and all(isinstance(e, VOpaque) for e in v.elems):
+            return ("record", tuple(e.data for e in v.elems))
         return ("bytes", len(v.elems))
     return ("data", str(type(v).__name__))
 
@@ -556,4 +574,26 @@ def m_read_blob_range(io):
                 st.event("io", op="read_range", outcome="ok", path=path, start=start.t, end=end.t)
                 outs += ex.finish_call(st, d, r, ok(VOpaque("filebytes", ("slice", h.t, start.t, end.t))))
         return outs
+    return f
+
+
+def m_builder_rand(ex, st, fr, c, a, d, r):
+    b = deref_all(st, a[0])
+    n = z3.simplify(a[1].t)
+    b.data["rand"] = not (z3.is_int_value(n) and n.as_long() == 0)
+    return a[0]
+
+
+def m_builder_make(io):
+    def f(ex, st, fr, c, a, d, r):
+        b = deref_all(st, a[0])
+        n = st.meta.get("ntmp", 0) + 1
+        st.meta["ntmp"] = n
+        if b.data.get("rand", True):
+            tmp = VStruct("NamedTempFile", [VOpaque("tmpid", n)])
+            return io.call(ex, st, d, r, "create-temp", tmp, path=("staging", n))
+        # a fixed name: NOT a fresh file — an ordinary create/truncate open of a nameable path
+        tmp = VStruct("NamedTempFile", [VOpaque("tmpid", "fixed-name")])
+        io.new_file(st, ("staging", "fixed-name"), create=True, truncate=True, write=True)
+        return io.call(ex, st, d, r, "open", tmp, path=("staging", "fixed-name"), flags=dict(create=True, truncate=True, write=True))
     return f
